@@ -4,4 +4,7 @@ pub mod c01;
 pub mod c02;
 pub mod c03;
 pub mod c05;
+pub mod c06;
+pub mod c07;
+pub mod c09;
 pub mod c13;
